@@ -972,6 +972,9 @@ class Data(object):
             else:
                 raise AttributeError("Invalid attribute name '%s'" % key)
         else: #pass on to superclass
+            if key != '__dict__' and not REO_IdentPub.match(key):
+                #private name of the class (method) is not a valid field name
+                raise AttributeError("Invalid attribute name '%s'" % key)
             super(Data,self).__setattr__(key,value)
 
     def __repr__(self):
